@@ -50,6 +50,25 @@ def gen_script(rnd, schema_ids, alphabet, length):
         lg = 1 if rnd.random() < 0.93 else rnd.choice([2, 3])
         if rnd.random() < 0.01:
             lines.append("0 handler %d" % rnd.randint(0, 1))
+        if rnd.random() < 0.03:
+            # round 5: mode-switch taps (deterministic on the virtual clock): inline ascii mode entered while composing, left by
+            # another route (option / binding), entered again, then the schema changes and the context is updated while idle
+            tap = lambda code, bit: ["%d key %d 0" % (lg, code), "%d key %d %d" % (lg, code, bit | (1 << 30))]
+            lines += ["%d key %d 0" % (lg, ord(c)) for c in rnd.choice(["ni", "a", "zh", "ab"])]
+            for _ in range(rnd.choice([1, 2, 2, 3])):
+                lines += tap(*rnd.choice([(0xffe1, 1), (0xffe1, 1), (0xffe2, 1), (0xffe3, 4), (0xffe4, 4)]))
+                lines.append("%d %s" % (lg, rnd.choice(["set_option ascii_mode 0", "key 50 5", "set_option ascii_mode 1", "key %d 0" % ord("b"),
+                                                         "get_context", "0 tick 600".split(" ", 1)[1] if False else "get_status"])))
+            lines.append("%d %s" % (lg, rnd.choice(["select_schema %s" % rnd.choice((schema_ids or ["nosuch"])), "key 49 5", "key 65307 0", "commit"])))
+            lines += ["%d %s" % (lg, x) for x in rnd.choice([["clear"], ["key 97 0", "key 65307 0"], ["commit", "get_commit"], ["set_input -"]])]
+        if rnd.random() < 0.015:
+            # round 5: the stale-session sweep (virtual wall clock): every live session idle for more than 300 s, one still fresh
+            lines.append("0 advance %d" % rnd.choice([200, 301, 305, 900]))
+            if rnd.random() < 0.4:
+                lines.append("%d get_status" % lg)
+            lines += ["0 cleanup_stale", "%d get_status" % lg, "%d find" % lg]
+            if rnd.random() < 0.7:
+                lines.append("%d create" % lg)
         if r < 0.45:
             for _ in range(rnd.randint(1, 7)):
                 t = rnd.random()
